@@ -563,7 +563,12 @@ def run_item(gid, item, cfg):
             info = {'replays': [], 'cross': None}
             for o in refuted:
                 entry = {'name': o.name, 'detail': o.detail, 'approx': bool(o.approx),
-                         'model': model_dict(c, o.model), 'path': o.path, 'replay': None}
+                         'model': model_dict(c, o.model) if o.model is not None else {}, 'path': o.path, 'replay': None}
+                nr = getattr(c, 'native_replays', {}).get(id(o))
+                if nr is not None:
+                    entry['replay'] = nr
+                    info['replays'].append(entry)
+                    continue
                 if spec is not None and run.replayable and nrep[0] < cfg.get('max_replays', 40):
                     nrep[0] += 1
                     try:
